@@ -26,9 +26,11 @@ Sanity == IF RuleHolds(S.tg, S.rule) THEN {"Machinery.NotMalformed" \o Tag} ELSE
 Direct ==
     /\ l <= Len(S.events) /\ Ev.e = "Direct"
     /\ fails' = fails \cup Sanity \cup
+         \* how = fresh (a new object) | again (the same object a second time, other mode) |
+         \*       turned (an object solved before its description was edited into this one)
          (IF Ev.k = "Raise" /\ Ev.etype = "ValueError" THEN {}
-          ELSE IF Ev.k = "Return" THEN {"C09.NoResult solved a malformed game" \o Tag}
-          ELSE {"C09.Rejected got=" \o Ev.k \o ":" \o Ev.etype \o Tag})
+          ELSE IF Ev.k = "Return" THEN {"C09.NoResult solved a malformed game (" \o Ev.how \o ")" \o Tag}
+          ELSE {"C09.Rejected (" \o Ev.how \o ") got=" \o Ev.k \o ":" \o Ev.etype \o Tag})
     /\ l' = l + 1 /\ UNCHANGED tid
 
 ExpectedKeys == <<"good_first", "good_first_no_prune", "bad", "bad_no_prune", "good_last", "good_last_no_prune">>
